@@ -71,6 +71,9 @@ class Contract:
         self.notes = []
         self.trusted = False  # contract assumed, body not verified (listed as assumption)
         self.callee_hook = None
+        # clauses that talk about the callee's own effect log are proved on the body but
+        # mean nothing in a caller's log: callers then see only effects + possible exceptions
+        self.assume_at_call_sites = True
 
     # builder API
     def param(self, name, kind):
@@ -225,6 +228,7 @@ def collect_obligations(source, registry, models_cls, contract, prune=True):
     info["precondition_sat"] = v
     st.ghost["loops"] = contract.loops
     st.ghost["contract"] = contract
+    st.ghost["__ex__"] = ex
     st.ghost["args"] = a
     pos, kw = [], {}
     fnode = fr.node
@@ -260,7 +264,8 @@ def collect_obligations(source, registry, models_cls, contract, prune=True):
         if o.kind == "return":
             for cl in contract.ensures_:
                 cond = cl.fn(a, o.value, cx)
-                obs.append(Obligation(cl.name, contract.qualname, cl.props, list(o.st.pc), cond, inputs, "ensures"))
+                xin = o.st.ghost.pop("extra_inputs", None)
+                obs.append(Obligation(cl.name, contract.qualname, cl.props, list(o.st.pc), cond, dict(inputs, **xin) if xin else inputs, "ensures"))
         elif o.kind == "raise":
             clauses = None
             for cls, lst in contract.exsures_.items():
@@ -344,8 +349,9 @@ def apply_contract(ex, contract, fr, args, kwargs, st, node, bound_self=None):
             contract.effects(a, s2, cls)
         excv = ExcVal(cls, (V.sstr(fresh_name("excmsg")),))
         cx = Ctx(s2, log0)
-        for cl in contract.exsures_[cls]:
-            s2.assume(cl.fn(a, excv, cx))
+        if contract.assume_at_call_sites:
+            for cl in contract.exsures_[cls]:
+                s2.assume(cl.fn(a, excv, cx))
         if ex.feasible is None or ex.feasible(s2.pc):
             out.append(Exc(excv, s2))
     s1 = base
@@ -356,8 +362,11 @@ def apply_contract(ex, contract, fr, args, kwargs, st, node, bound_self=None):
     for x in assumptions:
         s1.assume(x)
     cx = Ctx(s1, log0)
-    for cl in contract.ensures_:
-        s1.assume(cl.fn(a, res, cx))
+    if contract.assume_at_call_sites:
+        for cl in contract.ensures_:
+            s1.assume(cl.fn(a, res, cx))
+    # ghost record of what the callee returned (clauses of the caller may refer to it)
+    s1.emit("CallResult", contract.qualname, res, a)
     if ex.feasible is None or ex.feasible(s1.pc):
         out.append(Val(res, s1))
     return out
